@@ -155,14 +155,21 @@ def batch_programs(ctx):
         except Exception as e:   # noqa: BLE001
             ctx.broken.append(f"refeval:{type(e).__name__}:program{i}")
             continue
-        bad = None
+        bad = bad_dtype = None
         for name in p.outputs:
             got = np.asarray(out[name])
             if got.shape != ref[name].shape or not close(got, ref[name], single=True, exact=False):
                 bad = name
                 break
             if got.dtype != ref[name].dtype:
-                dtype_dev += 1
+                # the recorded dtype-inference deviations from NumPy (C03's known findings: reductions keep the
+                # operand dtype, isnan is int32, bool//bool …) surface here as well: the reference evaluator
+                # follows pytato's declared dtype, real NumPy does not
+                c03_known = {"isnan", "conj", "floordiv", "mod", "pow"} | {o for o in p.ops if o.startswith("reduce_")}
+                if c03_known & set(p.ops):
+                    dtype_dev += 1
+                else:
+                    bad_dtype = (name, str(got.dtype), str(ref[name].dtype))
         if bad:
             dis += 1
             ctx.violation("pytarget:value-mismatch",
@@ -171,12 +178,119 @@ def batch_programs(ctx):
                           {"program_index": i, "seed": ctx.seed + 1400, "output": bad, "source": bp.program,
                            "observed": np.asarray(out[bad]).tolist(), "expected": ref[bad].tolist()})
             continue
+        if bad_dtype:
+            dis += 1
+            ctx.violation("pytarget:dtype-mismatch",
+                          f"program {i} (seed {ctx.seed}) output {bad_dtype[0]}: generated Python returns {bad_dtype[1]}, "
+                          f"pytato declares and NumPy computes {bad_dtype[2]} (ops {sorted(set(p.ops))})",
+                          {"program_index": i, "seed": ctx.seed + 1400, "output": bad_dtype[0], "source": bp.program})
+            continue
         for o in set(p.ops):
             ops_ok[o] = ops_ok.get(o, 0) + 1
         if i % 80 == 0:
             ctx.sample({"batch": "programs", "program": i, "ops": sorted(set(p.ops))})
     ctx.note_batch("generated-python-vs-reference", cases, dis, exhaustive=False, not_supported=unsupported,
                    executed_ok_constructor_counts=ops_ok, outputs_with_dtype_deviation=dtype_dev)
+
+
+def batch_scalar_operands(ctx):
+    """every arithmetic operator with a scalar operand of every kind (Python / typed NumPy scalars, negative
+    ones) on either side: the generated Python must give NumPy's dtype and values (the emitted source goes
+    through `ast.unparse` and NumPy's weak-scalar promotion, both of which can change the meaning)"""
+    import operator
+    import pytato as pt
+    scalars = [2, -2, 3, -3, 0, 1.5, -0.5, -2.0, np.int32(2), np.int64(-3), np.int8(-2), np.float32(1.5), np.float32(-2),
+               np.float64(1.1), np.float64(-2.0), True]
+    ops = {"+": operator.add, "-": operator.sub, "*": operator.mul, "/": operator.truediv, "**": operator.pow,
+           "//": operator.floordiv, "%": operator.mod}
+    data = {"int8": np.array([1, 2, 3, 0], np.int8), "int32": np.array([1, 2, 3, 4], np.int32),
+            "int64": np.array([0, 1, 2, 3], np.int64), "float32": np.array([1, 2, 3, 4], np.float32),
+            "float64": np.array([1.0, 2.0, 3.0, 0.5]), "uint8": np.array([1, 2, 3, 4], np.uint8)}
+    cases = dis = skipped = 0
+    for dt, arr in data.items():
+        x = pt.make_placeholder("x", arr.shape, arr.dtype)
+        for s in scalars:
+            for oname, op in ops.items():
+                for side in ("array-op-scalar", "scalar-op-array"):
+                    f = (lambda a, op=op, s=s: op(a, s)) if side == "array-op-scalar" else (lambda a, op=op, s=s: op(s, a))
+                    with np.errstate(all="ignore"):
+                        try:
+                            ref = f(arr)
+                        except Exception:   # noqa: BLE001
+                            continue        # NumPy rejects the combination (e.g. integer ** negative integer)
+                    try:
+                        e = f(x)
+                    except Exception:   # noqa: BLE001
+                        continue            # pytato rejects it at construction: allowed
+                    cases += 1
+                    try:
+                        bp = pytarget.generate(e)
+                    except _not_supported():
+                        skipped += 1
+                        continue
+                    desc = {"array_dtype": dt, "scalar": repr(s), "op": oname, "side": side}
+                    try:
+                        with np.errstate(all="ignore"):
+                            got = np.asarray(bp(x=arr))
+                    except Exception as ex:   # noqa: BLE001
+                        dis += 1
+                        ctx.violation(f"pytarget:scalar-operand:runtime:{type(ex).__name__}",
+                                      f"{side} {dt} {oname} {s!r}: generated code fails: {ex}", dict(desc, source=bp.program))
+                        continue
+                    same_decl = np.dtype(e.dtype) == ref.dtype     # else: a dtype-inference deviation, C03's matter
+                    if got.shape != ref.shape or not close(got, ref.astype(got.dtype) if not same_decl else ref,
+                                                           single=not same_decl, exact=False) \
+                            or (same_decl and got.dtype != ref.dtype):
+                        dis += 1
+                        ctx.violation("pytarget:scalar-operand:" + ("dtype" if np.array_equal(got, ref.astype(got.dtype))
+                                                                    else "value"),
+                                      f"{side}: {dt} array {oname} {s!r}: generated Python gives {got.tolist()} "
+                                      f"({got.dtype}), NumPy {ref.tolist()} ({ref.dtype}); pytato declares {e.dtype}",
+                                      dict(desc, source=bp.program, observed=got.tolist(), expected=ref.tolist()))
+    ctx.note_batch("scalar-operand-forms", cases, dis, exhaustive=True, not_supported=skipped,
+                   scope=f"{len(data)} array dtypes x {len(scalars)} scalars x {len(ops)} operators x 2 sides")
+
+
+def batch_near_misses(ctx):
+    """hand-built index lambdas that merely resemble a high-level operation (C19's near-misses, incl. what
+    lowering produces): the target must refuse them or compute exactly what the index lambda denotes"""
+    from . import c19
+    from ..ilinterp import eval_index_lambda
+    from ..reflect import walk
+    from pytato.array import Placeholder
+    rng = np.random.default_rng(ctx.seed + 141)
+    cases = dis = refused = 0
+    for label, il in c19.near_misses(ctx):
+        cases += 1
+        inp = {n.name: c19._data(rng, tuple(n.shape), n.dtype) for n in walk(il) if isinstance(n, Placeholder)}
+        try:
+            bp = pytarget.generate(il)
+        except _not_supported():
+            refused += 1
+            continue
+        except Exception as e:   # noqa: BLE001
+            dis += 1
+            ctx.violation(f"pytarget:near-miss:generate:{type(e).__name__}",
+                          f"{label} ({il.expr}): generate_numpy_like raised {type(e).__name__}: {e} — not a "
+                          "not-supported error", {"label": label, "expr": str(il.expr)})
+            continue
+        try:
+            binds = {k: evaluate(v, inp) for k, v in il.bindings.items()}
+            truth, _ = eval_index_lambda(il, binds)
+            with np.errstate(all="ignore"):
+                got = np.asarray(bp(**{k: v for k, v in inp.items() if k in bp.expected_arguments}))
+        except Exception as e:   # noqa: BLE001
+            dis += 1
+            ctx.violation(f"pytarget:near-miss:runtime:{type(e).__name__}",
+                          f"{label} ({il.expr}): the generated code fails: {e}", {"label": label, "source": bp.program})
+            continue
+        if got.shape != truth.shape or not close(got, truth, single=False, exact=False):
+            dis += 1
+            ctx.violation("pytarget:near-miss:value-mismatch",
+                          f"{label}: the index lambda {il.expr} is emitted as code that computes something else",
+                          {"label": label, "expr": str(il.expr), "source": bp.program,
+                           "observed": got.tolist(), "expected": truth.tolist()})
+    ctx.note_batch("near-miss-index-lambdas", cases, dis, exhaustive=False, refused_as_not_supported=refused)
 
 
 def batch_names(ctx):
@@ -212,6 +326,8 @@ def run(ctx: common.Ctx):
     ctx.lean_obligations("PtProofs.C14", THEOREMS)
     batch_names(ctx)
     batch_slices(ctx)
+    batch_scalar_operands(ctx)
+    batch_near_misses(ctx)
     batch_programs(ctx)
     ctx.broken = sorted(set(ctx.broken))[:50]
 
